@@ -13,7 +13,7 @@ from engine.runner import jnum, unj, active_regions
 ID = 'C08'
 ENGINE = 'IRSYM'
 TECHNIQUE = 'symbolic execution of the clang LLVM-IR of every exported C routine on exactly sized buffers with memory-safety / UB monitors; every data dependent path is decided by z3; a firing monitor is replayed natively under ASan/UBSan'
-BUDGET = {'quick': 480, 'thorough': 3000}
+BUDGET = {'quick': 480, 'thorough': 1800}
 SOURCES = ['src/DTAIDistanceC/DTAIDistanceC/dd_dtw.c', 'src/DTAIDistanceC/DTAIDistanceC/dd_ed.c',
            'src/DTAIDistanceC/DTAIDistanceC/dd_dtw_openmp.c', 'src/DTAIDistanceC/DTAIDistanceC/dd_globals.h',
            'src/DTAIDistanceC/DTAIDistanceC/dd_dtw.h']
